@@ -117,9 +117,23 @@ pub fn run(input: &Value) -> Case {
     }
 }
 
+/// constants written in src/surface.rs and their neighbours, harvested at run time (source-boundary stream)
+fn bounds() -> &'static [u64] {
+    static B: std::sync::OnceLock<Vec<u64>> = std::sync::OnceLock::new();
+    B.get_or_init(|| source_boundaries(&["src/surface.rs"], u64::MAX))
+}
+
 fn interesting(rng: &mut Rng, t: &str, n: usize) -> i128 {
     let (lo, hi) = ty_range(t);
     let nn = n as i128;
+    if !bounds().is_empty() && rng.chance(1, 8) {
+        // a bound at a constant of the source (or its negation, or counted from the end of the axis)
+        let v = *rng.pick(bounds()) as i128;
+        let c = *rng.pick(&[v, -v, nn - v, v - nn]);
+        if c >= lo && c <= hi {
+            return c;
+        }
+    }
     let cands = [
         lo, lo + 1, -nn - 2, -nn - 1, -nn, -nn + 1, -2, -1, 0, 1, 2, nn - 1, nn, nn + 1, nn + 2,
         hi - 1, hi, i64::MAX as i128, i64::MAX as i128 + 1, i64::MIN as i128, (nn / 2), -(nn / 2),
@@ -169,7 +183,13 @@ pub fn generate(rng: &mut Rng, n: usize, tier: &str) -> Vec<Value> {
     while v.len() < fixed + n {
         let t = *rng.pick(&TYPES);
         let form = *rng.pick(&FORMS);
-        let size = if rng.chance(1, 5) { rng.below(20) as usize } else { *rng.pick(&sizes) };
+        let size = if !bounds().is_empty() && rng.chance(1, 8) {
+            *rng.pick(bounds()) as usize
+        } else if rng.chance(1, 5) {
+            rng.below(20) as usize
+        } else {
+            *rng.pick(&sizes)
+        };
         let a = interesting(rng, t, size);
         let b = interesting(rng, t, size);
         v.push(json!({"ty": t, "form": form, "a": a.to_string(), "b": b.to_string(), "n": size.to_string()}));
